@@ -435,9 +435,12 @@ def gen_history(rng, length, model_only, depth):
                 f = g[:rng.randrange(1, len(g))] if len(g) > 1 else g
         elif r < 0.76:
             f = rng.choice(raising)
-        elif r < 0.97:
+        elif r < 0.95:
             g = rng.choice(rereg)
             blocks.append([[g[0], pid] + g[1:]])
+            continue
+        elif r < 0.97 and not model_only:
+            blocks.append([['foreignlex']])
             continue
         else:
             if built < nparsers:
@@ -488,6 +491,7 @@ def cases(rng, ctx):
     if not thorough:
         forms = sorted(rng.sample(forms, 120))
     out.append({'kind': 'debug', 'formulas': forms})
+    out.append({'kind': 'inert', 'formulas': sorted(rng.sample(VALID_MODEL + VALID_WILD, 40))})
     out.append({'kind': 'debug', 'formulas': tree_formulas(rng, 300 if thorough else 60, 5) + generic_calls(rng, 600 if thorough else 80)})
     # (c) host values
     common.load_repo()
@@ -566,6 +570,23 @@ def fresh_record(regs, f):
         return lv.p.parse(f)
 
 
+class HostTokens(object):
+    tokens = ('WORD', 'INT')
+    t_WORD = r'[a-z]+'
+    t_INT = r'[0-9]+'
+    t_ignore = ' '
+
+    def t_error(self, t):
+        t.lexer.skip(1)
+
+
+def foreign_lexer():
+    import ply.lex
+    lx = ply.lex.lex(object=HostTokens(), errorlog=ply.lex.NullLogger())
+    lx.input('host text 42')
+    return [t.value for t in lx]
+
+
 def run_history(c):
     lives = []
     regs = []            # per parser: registration ops so far (without index)
@@ -588,6 +609,11 @@ def run_history(c):
             records.append(None)
             # `ply.lex.lexer` right after the constructor (the fresh parsers of the probe sweep rebind it too)
             glex[0] = next((i for i, lv in enumerate(lives) if ply.lex.lexer is lv.p.parser.lex), None)
+        elif k == 'foreignlex':
+            # the host program (or another library) builds a PLY lexer of its own: `ply.lex.lexer`, the module-level
+            # "most recent lexer", now is that one
+            foreign_lexer()
+            records.append(None)
         elif k == 'parse':
             if op[1] >= len(lives):
                 records.append(None)
@@ -732,6 +758,45 @@ def safe_repr(rec):
         if isinstance(rec, dict):
             return '{' + ', '.join('%r: %s' % (k, safe_repr(v)) for k, v in sorted(rec.items())) + '}'
         return '<unprintable %s>' % type(rec).__name__
+
+
+INERT_FORMULAS = ['TRUE()', 'IF(FALSE(),1,2)', 'PI()*0+1', 'SUM(1,2)+TRUE()', 'HOSTLIST()', 'ARGS()', 'ARGS(1,va)', 'A1+va',
+                  'SUM(A1:B2)', 'ID(lista)', 'AND(TRUE(),1)', 'NOT(FALSE())']
+
+
+def run_inert(c):
+    """listeners that set nothing and raise nothing are no bindings: with them, without them, on a parser created later -
+    every outcome is the same.  The listeners here keep a journal by editing, in place, the argument list THEY were handed
+    (callFunction) - as far as a host can tell that list is its own copy."""
+    regs = std_regs(False)
+    forms = list(c['formulas']) + INERT_FORMULAS
+
+    def fresh():
+        lv = Live()
+        for r in regs:
+            lv.apply(r)
+        return lv
+    journal = []
+    base = fresh()
+    err = io.StringIO()
+    with contextlib.redirect_stderr(err):
+        r0 = [base.p.parse(f) for f in forms]
+        with_j = fresh()
+        with_j.p.on('callFunction', lambda name, args, setter: (journal.append(name), args.insert(0, name), args.append(len(journal))))
+        with_j.p.on('callVariable', lambda name, setter: journal.append(name))
+        r1 = [with_j.p.parse(f) for f in forms]
+        r2 = [with_j.p.parse(f) for f in forms]
+        r3 = [base.p.parse(f) for f in forms]
+        later = fresh()
+        r4 = [later.p.parse(f) for f in forms]
+    findings = []
+    for i, f in enumerate(forms):
+        for tag, rs in (('with a journal listener', r1), ('with a journal listener, second time', r2),
+                        ('on the first parser again, after the journal ran elsewhere', r3), ('on a parser created afterwards', r4)):
+            if not strict_same(r0[i], rs[i]):
+                findings.append('%r: without any listener %s, %s %s' % (f, safe_repr(r0[i]), tag, safe_repr(rs[i])))
+                break
+    return {'findings': findings[:5], 'printed': {'off': 0, 'on': 1, 'toggle': 0}, 'n': len(forms)}
 
 
 def run_debug(c):
@@ -1063,6 +1128,8 @@ def impl(c):
             return run_history(c)
         if k == 'debug':
             return run_debug(c)
+        if k == 'inert':
+            return run_inert(c)
         if k in ('immut-fn', 'immut-ops'):
             return run_immut(c)
         if k in ('memory', 'memory-distinct'):
@@ -1089,6 +1156,10 @@ def oracle(c, ans):
         if ans['findings']:
             return '[debug] ' + ans['findings'][0]
         return None
+    if k == 'inert':
+        if ans['findings']:
+            return '[inert listener] ' + ans['findings'][0]
+        return None
     if k in ('immut-fn', 'immut-ops'):
         if ans['findings']:
             return '[host-value immutability] ' + ans['findings'][0]
@@ -1109,7 +1180,7 @@ def nontrivial(c, ans):
     if k == 'history':
         s = ans['stats']
         return s['failed'] > 0 and s['rereg'] > 0 and s['raising'] > 0 and s['probe_cmp'] > 0
-    if k == 'debug':
+    if k in ('debug', 'inert'):
         return ans['printed']['on'] > 0
     if k in ('immut-fn', 'immut-ops'):
         return ans['n'] > 0
@@ -1123,6 +1194,8 @@ def weight(c, ans):
         return (s['parses'], s['probe_cmp'], len(ans['records']) if c.get('model') else 0)
     if k == 'debug':
         return (3 * ans['n'], ans['n'], 0)
+    if k == 'inert':
+        return (5 * ans['n'], 4 * ans['n'], 0)
     if k in ('immut-fn', 'immut-ops'):
         return (ans['n'], ans['n'], 0)
     if k in ('memory', 'memory-distinct'):
